@@ -264,6 +264,9 @@ def main(tier, seed):
     for i in range(0, len(grid), 8):
         batches.append({"kind": "flaggrid", "classes": grid[i:i + 8], "seed": seed * 7919 + 200 + i})
     acc = harness.run_workers("checks.c02_decoding", "run_batch", batches, 1500)
+    if not q:
+        # the repository's own tests as a workload: every stream they load must re-serialise byte-identically
+        harness.run_suite_with_monitors(acc, ("load-redump", "avp-load", "known-avp-flags-from-class-default"))
     return harness.finish(PROP, tier, seed, "exploration", acc, RULE,
                           ["streams come from the independent reference encoder; padding is zero as RFC 6733 requires",
                            "an AVP with the V flag and Vendor-ID 0 is generated and its fields judged, but not its class",
